@@ -2,6 +2,7 @@
 # tools/sweep.sh <tier> <seed> [<seed>...] : runs every check at the tier for each seed, evidence redirected to scratch
 # (so that the committed evidence is not touched); prints one line per run, plus details of anything unclean.
 tier="$1"; shift
+worst=0
 cd "$(dirname "$0")/.."
 for seed in "$@"; do
   for p in C01 C02 C03 C04 C05 C06 C07 C08 C09 C10 C11 C12 C13 C14 C15 C16 C17 C18 C19 C20; do
@@ -10,8 +11,10 @@ for seed in "$@"; do
     VERIF_SEED=$seed VERIF_OUT_DIR="$out" ./run $p $tier > "$out/log" 2>&1; code=$?
     end=$(date +%s)
     echo "seed=$seed $p exit=$code $((end-start))s $(tail -1 "$out/log" | cut -c1-150)"
-    if [ $code -ne 0 ]; then grep -E "VIOLATION|  sig:|CHECK-ERROR|BUILD-ERROR" "$out/log" | sort | uniq -c | head -10; fi
+    if [ $code -ne 0 ]; then worst=1; grep -E "VIOLATION|  sig:|CHECK-ERROR|BUILD-ERROR" "$out/log" | sort | uniq -c | head -10; fi
     grep -h "inconclusive=[1-9]" "$out/log" >/dev/null && python3 -c "
 import json;d=json.load(open('$out/evidence/$p.json'));print('   inconclusive:',d['coverage'].get('inconclusive_notes'))" 2>/dev/null
   done
 done
+echo "sweep finished: worst exit $worst"
+exit $worst
